@@ -64,12 +64,59 @@ Proof.
   now apply count_partition.
 Qed.
 
+(* atomic uploads (t_part never fires - what push / fetch model): no truncated leftover *)
+Lemma dir_loop_part_written i missing : ord_ok (t_bord i) -> forall dirs files failed o b,
+  In (Partial o b) (d_events (dir_loop i missing dirs files failed)) -> part_written i o = true.
+Proof.
+  intros Hb.
+  assert (HA : forall batch o b, In (Partial o b) (add_events i batch) -> part_written i o = true).
+  { intros batch o b H. apply add_events_In_Partial in H; auto. tauto. }
+  induction dirs as [|D r IH]; simpl; intros files failed o b H; [contradiction|].
+  destruct (find_tree i D) as [entries|]; simpl in H; [|contradiction].
+  destruct (dir_step i missing D entries files failed) as [[[ev files'] failed'] succ] eqn:Est.
+  simpl in H. apply in_app_or in H. destruct H as [H|H]; [|eauto].
+  unfold dir_step in Est.
+  destruct (add_failed i (filter (fun f => mem f entries) files) ++ filter (fun f => mem f failed) entries).
+  - destruct (existsb (fun f => mem f missing) entries).
+    + inversion Est; subst. eauto.
+    + destruct (add_failed i [D]); inversion Est; subst; apply in_app_or in H; destruct H; eauto.
+  - inversion Est; subst. eauto.
+Qed.
+Lemma do_transfer_part_written i new missing o b : ord_ok (t_bord i) ->
+  In (Partial o b) (fst (do_transfer i new missing)) -> part_written i o = true.
+Proof.
+  intros Hb.
+  assert (HA : forall batch, In (Partial o b) (add_events i batch) -> part_written i o = true).
+  { intros batch H. apply add_events_In_Partial in H; auto. tauto. }
+  unfold do_transfer.
+  set (r := dir_loop i missing (t_dord i (filter is_dir_oid new)) (filter is_file_oid new) []).
+  destruct (d_ok r); simpl.
+  - destruct (add_failed i (d_files r) ++ d_failed r); simpl; intros H;
+      apply in_app_or in H; destruct H as [H|H].
+    + apply in_app_or in H. destruct H as [H|H]; [eapply dir_loop_part_written; eauto|eauto].
+    + apply in_map_iff in H. destruct H as [p [E _]]. discriminate.
+    + apply in_app_or in H. destruct H as [H|H]; [eapply dir_loop_part_written; eauto|eauto].
+    + destruct H as [H|[]]. discriminate.
+  - intros H. eapply dir_loop_part_written; eauto.
+Qed.
+Lemma no_partial i : ord_ok (t_bord i) -> (forall x, t_part i x = false) ->
+  forall o b, ~ In (Partial o b) (o_events (transfer i)).
+Proof.
+  intros Hb Hp o b H.
+  destruct (transfer_inv i) as [[k [_ [_ [E _]]]]|[st [dix [six [EC [_ [[_ [E _]]|[_ [E _]]]]]]]]];
+    rewrite E in H; try destruct H.
+  apply do_transfer_part_written in H; auto. unfold part_written in H. rewrite Hp in H.
+  rewrite andb_false_r in H. discriminate.
+Qed.
+
 (* nothing but requested objects is written, and with the source's bytes *)
-Lemma g_upper i tr fl o b : t_shallow i = true -> wf11 i -> o_outcome (transfer i) = TOk tr fl ->
+Lemma g_upper i tr fl o b : t_shallow i = true -> wf11 i -> (forall x, t_part i x = false) ->
+  o_outcome (transfer i) = TOk tr fl ->
   lookup o (dst_after i) = Some b ->
   lookup o (t_dst i) = Some b \/ (In o (t_req i) /\ lookup o (t_src i) = Some b).
 Proof.
-  intros Hs Hw HO HL.
+  intros Hs Hw Hnp HO HL.
+  pose proof (no_partial i (w_bord _ Hw) Hnp) as Hat.
   destruct (outcome_ok i tr fl HO) as [st [dix [six [EC [HS Hcase]]]]].
   rewrite dst_after_eq in HL.
   destruct Hcase as [[_ [_ [_ Ee]]]|[_ [_ [_ Ee]]]]; rewrite Ee in HL; simpl in HL; auto.
@@ -79,8 +126,9 @@ Proof.
   - apply existsb_exists in EX. destruct EX as [e [He Hx]].
     destruct (ev_oid e) as [x|] eqn:Eo; [|discriminate]. apply eqb_eq in Hx. subst x.
     pose proof (dt_oid _ _ _ _ _ _ HDT e o He Eo) as Hn.
-    destruct (apply_dst_origin _ _ _ _ _ HL) as [H|H]; auto.
-    right. split; auto. eapply new_in_req; eauto.
+    destruct (apply_dst_origin _ _ _ _ _ HL) as [H|[H|H]]; auto.
+    + right. split; auto. eapply new_in_req; eauto.
+    + exfalso. apply (Hat o b). now rewrite Ee.
   - left. rewrite apply_dst_untouched in HL; auto.
     intros e He Hx. apply (existsb_false _ _ EX) in He. rewrite Hx, eqb_refl in He. discriminate.
 Qed.
@@ -140,6 +188,10 @@ Proof. destruct k; reflexivity. Qed.
 Lemma gin_parse e k w g : t_parse (gin e k w g) = e_parse e.
 Proof. destruct k; reflexivity. Qed.
 Lemma gin_fails e k w g : t_fails (gin e k w g) = e_fails e (gd k g).
+Proof. destruct k; reflexivity. Qed.
+Lemma gin_part e k w g x : t_part (gin e k w g) x = false.
+Proof. destruct k; reflexivity. Qed.
+Lemma gin_trunc e k w g : t_trunc (gin e k w g) = fun _ => [].
 Proof. destruct k; reflexivity. Qed.
 Lemma gin_ext e k w w' g :
   sget w' (gsrc k g) = sget w (gsrc k g) -> sget w' (gd k g) = sget w (gd k g) ->
@@ -410,7 +462,7 @@ Lemma round_upper g o b : In g gs -> lookup o (sget (p_w out) (gd k g)) = Some b
 Proof.
   intros Hg HL. destruct (proj1 (run_indep e k gs w 0 0 out Hind Hrun Herr) g Hg) as [E [tr [fl HO]]].
   rewrite E in HL.
-  destruct (g_upper _ tr fl o b (gin_shallow e k w g) (wf_wf11 _ (Hwf g Hg)) HO HL) as [H|[H1 H2]].
+  destruct (g_upper _ tr fl o b (gin_shallow e k w g) (wf_wf11 _ (Hwf g Hg)) (gin_part e k w g) HO HL) as [H|[H1 H2]].
   - left. now rewrite <- gin_dst with (e := e).
   - right. rewrite <- (gin_req e k w g), <- (gin_src e k w g). auto.
 Qed.
@@ -521,21 +573,24 @@ Lemma wf_next i1 i2 :
   t_src i2 = t_src i1 -> t_dst i2 = dst_after i1 -> t_parse i2 = t_parse i1 ->
   t_req i2 = t_req i1 -> t_shallow i2 = t_shallow i1 ->
   (t_dix i2 = None \/ t_dix i2 = Some []) ->
-  ord_ok (t_bord i2) -> ord_ok (t_dord i2) -> wf i2.
+  ord_ok (t_bord i2) -> ord_ok (t_dord i2) ->
+  (forall x, t_part i1 x = false) -> t_trunc i2 = t_trunc i1 -> wf i2.
 Proof.
-  intros Hw Hc1 Hc2 Es Ed Ep Er Esh Ex Hb Hd.
+  intros Hw Hc1 Hc2 Es Ed Ep Er Esh Ex Hb Hd Hnp Etr.
+  pose proof (no_partial i1 (wf_bord _ Hw) Hnp) as Hat.
   assert (A : agree (t_parse i1) (t_dst i1) (t_src i1)).
   { destruct (wf_coh _ Hw) as [A _]. unfold status_cache in A. now rewrite Hc1 in A. }
   assert (Horigin : forall D b, lookup D (t_dst i2) = Some b ->
             lookup D (t_dst i1) = Some b \/ lookup D (t_src i1) = Some b).
-  { intros D b H. rewrite Ed, dst_after_eq in H. now apply apply_dst_origin in H. }
+  { intros D b H. rewrite Ed, dst_after_eq in H. apply apply_dst_origin in H.
+    destruct H as [H|[H|H]]; auto. exfalso. exact (Hat D b H). }
   constructor; auto.
   - intros b l f. rewrite Ep. apply (wf_flat _ Hw).
   - unfold coherent, status_cache. rewrite Hc2, Ep, Es. split.
     + intros D b1 b2 L1 L2. destruct (Horigin D b1 L1) as [H|H]; [eapply A; eauto|congruence].
     + intros D b1 b2 L1 L2. congruence.
   - rewrite Ep, Ed. now apply final_closed.
-  - unfold ix_sound. destruct Ex as [->| ->]; auto. intros o H. discriminate.
+  - unfold ix_sound. destruct Ex as [->| ->]; auto. right. intros o H. discriminate.
   - destruct (wf_req _ Hw) as [H|H]; [left; congruence|right].
     intros D l f HD Hdir HT Hf. rewrite Er in *. apply (H D l f HD Hdir); auto.
     (* the listing found in the second round is the one of the first *)
@@ -554,6 +609,7 @@ Proof.
     + destruct Hor as [Hor|Hor].
       * assert (load_ok (t_parse i1) (t_dst i1) D = Some l) by (apply load_ok_some; eauto). congruence.
       * apply load_ok_some. eauto.
+  - intros o Ho. rewrite Etr, Ep. now apply (wf_trunc _ Hw).
 Qed.
 
 (* a failed round followed by a fault-free one ends complete *)
@@ -587,6 +643,299 @@ Proof.
     + destruct k; simpl; auto.
     + destruct k; exact Hb.
     + destruct k; exact Hd.
+    + intros x. apply gin_part.
+    + now rewrite !gin_trunc.
   - intros g' x Hg' Hx. rewrite (Hs g' Hg'). auto.
   - intros g' D b Hg' HD HL. rewrite (Hs g' Hg') in HL. rewrite Hp. eauto.
+Qed.
+
+(* ====================================================================================== *)
+(* checkout from the fetched caches *)
+
+(* the entries of remote r's group: the key's object is requested by that group *)
+Lemma entry_in_group m idx k o r : NoDup (map fst m) ->
+  In (k, o) (entries m idx) -> remote_of m k = Some r ->
+  exists g, In g (collect m idx) /\ g_data g = r /\ In o (g_req g).
+Proof.
+  intros Hn Hin Hr. apply designated_in_group; auto. unfold designated.
+  apply in_map_iff. exists (k, o). split; auto. apply filter_In. split; auto.
+  simpl. rewrite Hr. apply N.eqb_refl.
+Qed.
+
+(* what the checkout needs from a fetch, whatever the way it was established *)
+Lemma checkout_from_facts m idx w w' :
+  NoDup (map fst m) ->
+  (* the cache the mapping designates for a key is the cache of the group of the key's remote *)
+  (forall g k o, In g (collect m idx) -> In (k, o) (entries m idx) ->
+                 remote_of m k = Some (g_data g) -> cache_of m k = g_cache g) ->
+  (forall g, In g (collect m idx) -> g_cache g <> None) ->
+  (* the fetch delivered every request, and only from the group's remote *)
+  (forall g o, In g (collect m idx) -> In o (g_req g) -> has (sget w' (gc g)) o = true) ->
+  (forall g o b, In g (collect m idx) -> lookup o (sget w' (gc g)) = Some b ->
+     exists g', In g' (collect m idx) /\ lookup o (sget w (g_data g')) = Some b) ->
+  forall k o r, In (k, o) (entries m idx) -> is_file_oid o = true -> remote_of m k = Some r ->
+    exists b r', lookup o (sget w r') = Some b /\ In (k, Some b) (checkout_view m idx w').
+Proof.
+  intros Hn Hsc Hc Hall Hfrom k o r Hin Hf Hr.
+  destruct (entry_in_group m idx k o r Hn Hin Hr) as [g [Hg [Hd Ho]]]. subst r.
+  pose proof (Hsc g k o Hg Hin Hr) as Ec.
+  destruct (g_cache g) as [c|] eqn:Eg; [|exfalso; now apply (Hc g Hg)].
+  assert (Egc : gc g = c) by (unfold gc; now rewrite Eg).
+  pose proof (Hall g o Hg Ho) as Hh. rewrite Egc in Hh. apply has_lookup in Hh. destruct Hh as [b Hb].
+  rewrite <- Egc in Hb. destruct (Hfrom g o b Hg Hb) as [g' [Hg' Hb']]. rewrite Egc in Hb.
+  exists b, (g_data g'). split; auto.
+  unfold checkout_view. apply in_map_iff. exists (k, o). simpl. split.
+  - now rewrite Ec, Hb.
+  - apply filter_In. auto.
+Qed.
+
+(* fetch into empty caches (one cache per remote group) then checkout: every file entry whose key
+   has a remote is linked, with the bytes its object has in a remote *)
+Theorem checkout_spec : forall e m idx w out,
+  NoDup (map fst m) ->
+  run_round e RFetch m idx w = out -> p_err out = None ->
+  indep RFetch (collect m idx) ->
+  (forall g, In g (collect m idx) -> wf (gin e RFetch w g)) ->
+  (forall s o, e_fails e s o = false) ->
+  (forall g o, In g (collect m idx) -> In o (g_req g) -> has (sget w (g_data g)) o = true) ->
+  (forall g D b, In g (collect m idx) -> is_dir_oid D = true ->
+                 lookup D (sget w (g_data g)) = Some b -> e_parse e b <> None) ->
+  (forall g, In g (collect m idx) -> sget w (gc g) = []) ->
+  (forall g k o, In g (collect m idx) -> In (k, o) (entries m idx) ->
+                 remote_of m k = Some (g_data g) -> cache_of m k = g_cache g) ->
+  forall k o r, In (k, o) (entries m idx) -> is_file_oid o = true -> remote_of m k = Some r ->
+    exists b, lookup o (sget w r) = Some b /\ In (k, Some b) (checkout_view m idx (p_w out)).
+Proof.
+  intros e m idx w out Hn Hrun Herr Hind Hwf Hnf Hsrc Hparse Hempty Hsc k o r Hin Hf Hr.
+  destruct (entry_in_group m idx k o r Hn Hin Hr) as [g [Hg [Hd Ho]]]. subst r.
+  pose proof (Hsc g k o Hg Hin Hr) as Ec.
+  destruct Hind as [A [B C]]. assert (Hind : indep RFetch (collect m idx)) by (split; auto).
+  destruct (g_cache g) as [c|] eqn:Eg; [|exfalso; now apply (A g Hg)].
+  assert (Egc : gc g = c) by (unfold gc; now rewrite Eg).
+  destruct (fetch_exact e m idx w out Hrun Herr Hind Hwf Hnf Hsrc Hparse g Hg (Hempty g Hg)) as [F1 F2].
+  pose proof (F1 o Ho) as Hh. apply has_lookup in Hh. destruct Hh as [b Hb].
+  destruct (F2 o b Hb) as [_ [_ Hb']].
+  exists b. split; auto.
+  unfold checkout_view. apply in_map_iff. exists (k, o). simpl. split.
+  - rewrite Ec. rewrite Egc in Hb. now rewrite Hb.
+  - apply filter_In. auto.
+Qed.
+
+(* ====================================================================================== *)
+(* several groups delivering into one store (fetch: several remotes, one cache): the sequential
+   form.  Sources are never destinations; destinations may coincide. *)
+
+Definition seqok (k : rkind) (gs : list group) : Prop :=
+  (forall g, In g gs -> g_cache g <> None) /\
+  (forall g g', In g gs -> In g' gs -> gsrc k g <> gd k g').
+
+Lemma seqok_tail k g r : seqok k (g :: r) -> seqok k r.
+Proof.
+  intros [A C]. split.
+  - intros x Hx. apply A. now right.
+  - intros x y Hx Hy. apply C; now right.
+Qed.
+Lemma indep_seqok k gs : indep k gs -> seqok k gs.
+Proof. intros [A [_ C]]. split; auto. Qed.
+
+Lemma seq_spec e k : (forall s o, e_fails e s o = false) -> forall gs w a b out,
+  seqok k gs -> turns wf e k gs w -> run_groups e k gs w a b = out -> p_err out = None ->
+  (forall g o, In g gs -> In o (g_req g) -> has (sget w (gsrc k g)) o = true) ->
+  (forall g D bb, In g gs -> is_dir_oid D = true ->
+                  lookup D (sget w (gsrc k g)) = Some bb -> e_parse e bb <> None) ->
+  (forall s, (forall g, In g gs -> gd k g <> s) -> sget (p_w out) s = sget w s) /\
+  (forall s o bb, lookup o (sget (p_w out) s) = Some bb ->
+     lookup o (sget w s) = Some bb \/
+     exists g, In g gs /\ gd k g = s /\ In o (g_req g) /\ lookup o (sget w (gsrc k g)) = Some bb) /\
+  (forall s o, has (sget w s) o = true -> lookup o (sget (p_w out) s) = lookup o (sget w s)) /\
+  (forall g o, In g gs -> In o (g_req g) -> has (sget (p_w out) (gd k g)) o = true).
+Proof.
+  intros Hnf. induction gs as [|g r IH]; simpl; intros w a b out HS HT HR HE Hsrc Hparse.
+  - subst out. simpl. repeat split; auto; try (intros g o []).
+  - pose proof (seqok_tail _ _ _ HS) as HSr. destruct HS as [A C].
+    assert (Hc : g_cache g <> None) by (apply A; now left).
+    destruct (g_cache g) as [c|] eqn:Ec; [|congruence].
+    assert (Egc : gc g = c) by (unfold gc; now rewrite Ec).
+    assert (Hne : N.eqb c (g_data g) = false).
+    { apply N.eqb_neq. intros E. apply (C g g (or_introl eq_refl) (or_introl eq_refl)).
+      unfold gsrc, gd, group_dst. rewrite Egc. destruct k; congruence. }
+    rewrite Hne in *. destruct HT as [Hw HT].
+    assert (Hgin : group_in e k w g c = gin e k w g) by (unfold gin; now rewrite Egc).
+    rewrite Hgin in HR.
+    destruct (o_outcome (transfer (gin e k w g))) as [kd|tr fl] eqn:EO; [subst out; discriminate|].
+    assert (Hd : group_dst k g c = gd k g) by (unfold gd; now rewrite Egc).
+    rewrite Hd in HR. fold (dst_after (gin e k w g)) in HR.
+    set (i := gin e k w g) in *. set (w1 := sset w (gd k g) (dst_after i)) in *.
+    assert (H1same : forall s, s <> gd k g -> sget w1 s = sget w s).
+    { intros s Hs. unfold w1. rewrite sget_sset.
+      destruct (N.eqb (gd k g) s) eqn:E; auto. apply N.eqb_eq in E. congruence. }
+    assert (H1dst : sget w1 (gd k g) = dst_after i).
+    { unfold w1. now rewrite sget_sset, N.eqb_refl. }
+    assert (Hsrc1 : forall g', In g' (g :: r) -> sget w1 (gsrc k g') = sget w (gsrc k g')).
+    { intros g' Hg'. apply H1same. apply C; auto. now left. }
+    destruct (IH w1 _ _ out HSr HT HR HE) as [A1 [B1 [C1 D1]]].
+    { intros g' o Hg' Ho. rewrite Hsrc1 by now right. apply Hsrc; auto. }
+    { intros g' D bb Hg' HD HL. rewrite Hsrc1 in HL by now right. eapply Hparse; eauto. }
+    pose proof (wf_wf11 _ Hw) as Hw1.
+    split; [|split; [|split]].
+    + intros s Hs. rewrite A1 by (intros g' Hg'; apply Hs; now right).
+      apply H1same. intros E. apply (Hs g); auto.
+    + intros s o bb HL. destruct (B1 s o bb HL) as [H|[g' [Hg' [E1 [E2 E3]]]]].
+      * destruct (N.eqb (gd k g) s) eqn:E.
+        -- apply N.eqb_eq in E. subst s. rewrite H1dst in H.
+           destruct (g_upper i tr fl o bb (gin_shallow e k w g) Hw1 (gin_part e k w g) EO H) as [H'|[H1 H2]].
+           ++ left. unfold i in H'. now rewrite gin_dst in H'.
+           ++ right. exists g. unfold i in H1, H2. rewrite gin_req in H1. rewrite gin_src in H2. auto.
+        -- apply N.eqb_neq in E. left. rewrite <- H1same; auto.
+      * right. exists g'. rewrite Hsrc1 in E3 by now right. auto.
+    + intros s o Ho. destruct (N.eqb (gd k g) s) eqn:E.
+      * apply N.eqb_eq in E. subst s.
+        assert (Hk : lookup o (dst_after i) = lookup o (sget w (gd k g))).
+        { pose proof (g_keeps i tr fl o (gin_shallow e k w g) Hw1 EO) as Hk.
+          unfold i in Hk at 1 3. rewrite gin_dst in Hk. exact (Hk Ho). }
+        rewrite C1; rewrite H1dst; auto.
+        apply has_lookup in Ho. destruct Ho as [bb Hb]. apply has_lookup. exists bb. congruence.
+      * apply N.eqb_neq in E. rewrite C1; rewrite H1same; auto.
+    + intros g' o [<-|Hg'] Ho.
+      * assert (F1 : forall x, t_fails i x = false).
+        { intros x. unfold i. rewrite gin_fails. apply Hnf. }
+        assert (F2 : forall x, In x (t_req i) -> has (t_src i) x = true).
+        { intros x Hx. unfold i in *. rewrite gin_src. rewrite gin_req in Hx. apply Hsrc; auto. }
+        assert (F3 : forall D bb, is_dir_oid D = true -> lookup D (t_src i) = Some bb -> t_parse i bb <> None).
+        { intros D bb HD HL. unfold i in *. rewrite gin_parse. rewrite gin_src in HL.
+          apply (Hparse g D bb); auto. }
+        assert (F4 : In o (t_req i)) by (unfold i; now rewrite gin_req).
+        pose proof (g_complete i tr fl Hw (gin_shallow e k w g) (gin_verify e k w g) EO F1 F2 F3 o F4) as Hh.
+        rewrite <- H1dst in Hh. apply has_lookup in Hh. destruct Hh as [bb Hb].
+        apply has_lookup. exists bb. rewrite C1; auto. apply has_lookup. eauto.
+      * apply D1; auto.
+Qed.
+
+(* ---- well-formedness at every turn, from hypotheses on the initial stores only ---- *)
+Lemma gin_cache e k w g : t_cache (gin e k w g) = Some (sget w (gd k g)).
+Proof. destruct k; reflexivity. Qed.
+
+Section TurnsWf.
+Variables (e : env) (k : rkind) (w0 : stores).
+Hypothesis Hb : ord_ok (e_bord e).
+Hypothesis Hd : ord_ok (e_dord e).
+Hypothesis Hflat : forall b l f, e_parse e b = Some l -> In f l -> is_dir_oid f = false.
+Hypothesis Htr : e_parse e [] = None.
+(* content addressing over all stores in play: one id, one listing *)
+Hypothesis GA : forall s1 s2 D b1 b2,
+  lookup D (sget w0 s1) = Some b1 -> lookup D (sget w0 s2) = Some b2 -> e_parse e b1 = e_parse e b2.
+
+(* every object of the current stores has its bytes in some initial store *)
+Definition origin (w : stores) : Prop :=
+  forall s o b, lookup o (sget w s) = Some b -> exists s0, lookup o (sget w0 s0) = Some b.
+(* a group requests every directory together with the files it lists *)
+Definition req_closed (g : group) : Prop :=
+  forall D s b l f, In D (g_req g) -> is_dir_oid D = true ->
+    lookup D (sget w0 s) = Some b -> e_parse e b = Some l -> In f l -> In f (g_req g).
+
+Lemma wf_of_inv w g :
+  origin w -> closed (e_parse e) (sget w (gd k g)) -> req_closed g -> wf (gin e k w g).
+Proof.
+  intros Hor Hcl Hreq. constructor.
+  - destruct k; exact Hb.
+  - destruct k; exact Hd.
+  - intros b l f. rewrite gin_parse. apply Hflat.
+  - unfold coherent, status_cache. rewrite gin_cache, gin_parse, gin_src, gin_dst.
+    split; intros D b1 b2 L1 L2; destruct (Hor _ _ _ L1) as [s1 O1]; destruct (Hor _ _ _ L2) as [s2 O2];
+      eapply GA; eauto.
+  - now rewrite gin_parse, gin_dst.
+  - unfold ix_sound. destruct k; simpl; auto. right. intros o H. discriminate.
+  - right. intros D l f HD Hdir HT Hf. rewrite gin_req in *.
+    unfold find_tree in HT. rewrite gin_cache, gin_parse, gin_src in HT.
+    destruct (load_ok (e_parse e) (sget w (gd k g)) D) as [l'|] eqn:E1.
+    + inversion HT; subst l'. apply load_ok_some in E1. destruct E1 as [b [L P]].
+      destruct (Hor _ _ _ L) as [s0 O]. exact (Hreq D s0 b l f HD Hdir O P Hf).
+    + apply load_ok_some in HT. destruct HT as [b [L P]].
+      destruct (Hor _ _ _ L) as [s0 O]. exact (Hreq D s0 b l f HD Hdir O P Hf).
+  - intros o Ho. rewrite gin_trunc, gin_parse. exact Htr.
+Qed.
+
+Lemma turns_wf : forall gs w,
+  origin w -> (forall g, In g gs -> closed (e_parse e) (sget w (gd k g))) ->
+  (forall g, In g gs -> req_closed g) -> turns wf e k gs w.
+Proof.
+  induction gs as [|g r IH]; simpl; intros w Hor Hcl Hreq; auto.
+  destruct (g_cache g) as [c|] eqn:Ec; auto.
+  destruct (N.eqb c (g_data g)).
+  - apply IH; auto.
+  - assert (Hw : wf (gin e k w g)) by (apply wf_of_inv; auto).
+    split; auto. set (i := gin e k w g) in *. apply IH.
+    + intros s o b HL. rewrite sget_sset in HL. destruct (N.eqb (gd k g) s); [|eauto].
+      rewrite dst_after_eq in HL. apply apply_dst_origin in HL. destruct HL as [HL|[HL|HL]].
+      * unfold i in HL. rewrite gin_dst in HL. eauto.
+      * unfold i in HL. rewrite gin_src in HL. eauto.
+      * exfalso. refine (no_partial i (wf_bord _ Hw) _ o b HL). intros x. apply gin_part.
+    + intros g' Hg'. rewrite sget_sset. destruct (N.eqb (gd k g) (gd k g')); [|auto].
+      pose proof (final_closed i Hw) as Hc. unfold i in Hc at 1. now rewrite gin_parse in Hc.
+    + auto.
+Qed.
+End TurnsWf.
+
+(* fetch, any number of remote groups per cache, no fault: every cache holds its groups' requests;
+   what it gained was requested, is reachable, and has the remote's bytes *)
+Theorem fetch_exact_seq : forall e m idx w out,
+  ord_ok (e_bord e) -> ord_ok (e_dord e) ->
+  (forall b l f, e_parse e b = Some l -> In f l -> is_dir_oid f = false) ->
+  e_parse e [] = None ->
+  (forall s1 s2 D b1 b2, lookup D (sget w s1) = Some b1 -> lookup D (sget w s2) = Some b2 ->
+                         e_parse e b1 = e_parse e b2) ->
+  run_round e RFetch m idx w = out -> p_err out = None ->
+  seqok RFetch (collect m idx) ->
+  (forall g, In g (collect m idx) -> closed (e_parse e) (sget w (gc g))) ->
+  (forall g, In g (collect m idx) -> req_closed e w g) ->
+  (forall s o, e_fails e s o = false) ->
+  (forall g o, In g (collect m idx) -> In o (g_req g) -> has (sget w (g_data g)) o = true) ->
+  (forall g D b, In g (collect m idx) -> is_dir_oid D = true ->
+                 lookup D (sget w (g_data g)) = Some b -> e_parse e b <> None) ->
+  (forall g o, In g (collect m idx) -> In o (g_req g) -> has (sget (p_w out) (gc g)) o = true) /\
+  (forall c o b, lookup o (sget (p_w out) c) = Some b ->
+     lookup o (sget w c) = Some b \/
+     exists g, In g (collect m idx) /\ gc g = c /\ In o (g_req g) /\ In o (reachable idx) /\
+               lookup o (sget w (g_data g)) = Some b).
+Proof.
+  intros e m idx w out Hb Hd Hflat Htr GA Hrun Herr HS Hcl Hreq Hnf Hsrc Hparse.
+  assert (HT : turns wf e RFetch (collect m idx) w).
+  { apply (turns_wf e RFetch w Hb Hd Hflat Htr GA); auto. intros s o b H. eauto. }
+  destruct (seq_spec e RFetch Hnf (collect m idx) w 0 0 out HS HT Hrun Herr Hsrc Hparse) as [_ [B [_ D]]].
+  split; [exact D|].
+  intros c o b HL. destruct (B c o b HL) as [H|[g [Hg [E1 [E2 E3]]]]]; auto.
+  right. exists g. repeat split; auto. eapply collect_reachable; eauto.
+Qed.
+
+(* ... and the checkout from those caches *)
+Theorem checkout_spec_seq : forall e m idx w out,
+  NoDup (map fst m) ->
+  ord_ok (e_bord e) -> ord_ok (e_dord e) ->
+  (forall b l f, e_parse e b = Some l -> In f l -> is_dir_oid f = false) ->
+  e_parse e [] = None ->
+  (forall s1 s2 D b1 b2, lookup D (sget w s1) = Some b1 -> lookup D (sget w s2) = Some b2 ->
+                         e_parse e b1 = e_parse e b2) ->
+  run_round e RFetch m idx w = out -> p_err out = None ->
+  seqok RFetch (collect m idx) ->
+  (forall g, In g (collect m idx) -> sget w (gc g) = []) ->
+  (forall g, In g (collect m idx) -> req_closed e w g) ->
+  (forall s o, e_fails e s o = false) ->
+  (forall g o, In g (collect m idx) -> In o (g_req g) -> has (sget w (g_data g)) o = true) ->
+  (forall g D b, In g (collect m idx) -> is_dir_oid D = true ->
+                 lookup D (sget w (g_data g)) = Some b -> e_parse e b <> None) ->
+  (forall g k o, In g (collect m idx) -> In (k, o) (entries m idx) ->
+                 remote_of m k = Some (g_data g) -> cache_of m k = g_cache g) ->
+  forall k o r, In (k, o) (entries m idx) -> is_file_oid o = true -> remote_of m k = Some r ->
+    exists b r', lookup o (sget w r') = Some b /\ In (k, Some b) (checkout_view m idx (p_w out)).
+Proof.
+  intros e m idx w out Hn Hb Hd Hflat Htr GA Hrun Herr HS Hempty Hreq Hnf Hsrc Hparse Hsc.
+  assert (Hcl : forall g, In g (collect m idx) -> closed (e_parse e) (sget w (gc g))).
+  { intros g Hg. rewrite (Hempty g Hg). intros D l f H. unfold listing in H. simpl in H.
+    destruct (is_dir_oid D); discriminate. }
+  destruct (fetch_exact_seq e m idx w out Hb Hd Hflat Htr GA Hrun Herr HS Hcl Hreq Hnf Hsrc Hparse) as [F1 F2].
+  apply (checkout_from_facts m idx w (p_w out)); auto.
+  - destruct HS as [A _]. exact A.
+  - intros g o b Hg HL. destruct (F2 (gc g) o b HL) as [H|[g' [Hg' [_ [_ [_ E3]]]]]].
+    + rewrite (Hempty g Hg) in H. discriminate.
+    + exists g'. auto.
 Qed.
